@@ -315,6 +315,34 @@ pub fn run(args: &[Sx]) -> Sx {
                 Some(Err(_)) => err(nil()),
             }
         }
+        (9, 4) => {
+            let (Some(rows), Some(cols), Some(probes)) = (args[1].usize(), args[2].usize(), pairs(&args[3])) else {
+                return bad_case();
+            };
+            if rows == 0 || cols == 0 || rows * cols > 1 << 12 {
+                return bad_case();
+            }
+            let mut m = iota_matrix(rows, cols);
+            let mut out = vec![];
+            for (row, col) in probes {
+                // the Matrix itself
+                let direct = match mget(&mut m, row, col) { Ok(g) => g, Err(e) => return e };
+                // through MatrixView, an unreversed MatrixReverse and the tensor wrapper
+                let mut view = MatrixView::from(&mut m);
+                let r2 = guarded(|| view.try_get_reference(row, col).copied());
+                let r3 = guarded(|| view.try_get_reference_mut(row, col).map(|x| *x));
+                let mut rev = MatrixReverse::from(&mut m, Reverse { rows: false, columns: false });
+                let via_rev = match mget(&mut rev, row, col) { Ok(g) => g, Err(e) => return e };
+                let wrapped = TensorRefMatrix::from(&m).unwrap();
+                let r4 = guarded(|| wrapped.get_reference([row, col]).copied());
+                let as_sx = |r: Option<Option<i64>>| match r { None => panicked(), Some(v) => ok(opt(v.map(z))) };
+                if as_sx(r2) != direct || as_sx(r3) != direct || via_rev != direct || as_sx(r4) != direct {
+                    return inconsistent(1620);
+                }
+                out.push(direct);
+            }
+            l(out)
+        }
         _ => bad_case(),
     }
 }
